@@ -562,3 +562,390 @@ Section Reachable.
   Qed.
 
 End Reachable.
+
+(* The two halves of the L3 argument, as corollaries of ls_shape / waiter_shape. *)
+Section Reachable_L3.
+  Variables (rounds : nat) (readers : list nat) (sched : list nat).
+  Let c := run (init rounds readers) sched.
+
+  (* (i) a waiting writer that re-loads lock_state when no reader is inside sees exactly WAITER,
+     takes the only_waiter_bit branch and does not park - this covers the window in which the
+     last reader left before the waiter swap and sent nothing *)
+  Theorem waiting_writer_alone_does_not_park r :
+    get_thr c 0 = W (WLoad r true) -> readers_inside c = 0%nat ->
+    ls c = WAITER /\ only_waiter_bit (ls c) = true.
+  Proof.
+    intros Hg Hn. pose proof (ls_shape rounds readers sched) as H. fold c in H.
+    unfold waiter_bit, writer_bit, wpc_of in H. rewrite Hg, Hn in H. simpl in H.
+    rewrite H. split; reflexivity.
+  Qed.
+
+  (* (ii) while the writer is parked its handle is published, new readers cannot enter, and the
+     last reader to leave fetches exactly READER|WAITER, so it goes on to load the handle *)
+  Theorem parked_writer_is_published r :
+    get_thr c 0 = W (WPark r) -> waiter c = Some 0%nat /\ has_writer_or_waiter (ls c) = true.
+  Proof.
+    intros Hg. pose proof (ls_shape rounds readers sched) as H. fold c in H.
+    pose proof (waiter_shape rounds readers sched) as Hw. fold c in Hw.
+    unfold waiter_bit, writer_bit, wpc_of in *. rewrite Hg in *. cbn [wbit xbit wtr] in *.
+    split; [exact Hw|]. rewrite H. rewrite hww_spec; auto; lia.
+  Qed.
+
+  Theorem last_reader_fetches_reader_waiter r t :
+    get_thr c 0 = W (WPark r) -> get_thr c t = R RExit -> readers_inside c = 1%nat ->
+    ls c = Z.lor READER WAITER /\ get_thr (step c t) t = R RLoadWaiter.
+  Proof.
+    intros Hg Ht Hn. pose proof (ls_shape rounds readers sched) as H. fold c in H.
+    unfold waiter_bit, writer_bit, wpc_of in H. rewrite Hg, Hn in H. simpl in H.
+    split; [rewrite H; reflexivity|].
+    unfold step. rewrite Ht. cbv zeta. rewrite H.
+    change (4 * 1 + 2 * 1 + 0 =? Z.lor READER WAITER) with true. cbv iota.
+    apply get_thr_upd_same.
+    change (thr (set_ls c (4 * 1 + 2 * 1 + 0 - READER))) with (thr c).
+    unfold get_thr in Ht. destruct (lt_dec t (length (thr c))) as [Hlt|Hge]; [exact Hlt|].
+    rewrite nth_overflow in Ht by lia. discriminate.
+  Qed.
+
+  Theorem delivering_reader_unparks_writer r t :
+    get_thr c 0 = W (WPark r) -> get_thr c t = R RLoadWaiter ->
+    get_thr (step c t) t = R (RUnpark 0) /\
+    token (step (step c t) t) 0 = true.
+  Proof.
+    intros Hg Ht. destruct (parked_writer_is_published r Hg) as [Hw _].
+    assert (Hlt : (t < length (thr c))%nat).
+    { unfold get_thr in Ht. destruct (lt_dec t (length (thr c))) as [Hlt|Hge]; [exact Hlt|].
+      rewrite nth_overflow in Ht by lia. discriminate. }
+    assert (H1 : step c t = upd c t (R (RUnpark 0))).
+    { unfold step. rewrite Ht, Hw. reflexivity. }
+    assert (H2 : get_thr (step c t) t = R (RUnpark 0)).
+    { rewrite H1. apply get_thr_upd_same. exact Hlt. }
+    split; [exact H2|].
+    unfold step at 1. rewrite H2. reflexivity.
+  Qed.
+
+End Reachable_L3.
+
+(* ------------------------------------------------------------------------------------ *)
+(* 5. Termination: a measure that every enabled step strictly decreases                  *)
+(* ------------------------------------------------------------------------------------ *)
+
+Definition b2n (b : bool) : nat := if b then 1 else 0.
+
+(* F: an upper bound on the modifications of lock_state still to come *)
+Definition Fw (wp : wpc) : nat :=
+  match wp with
+  | WIdle r => 3 * r
+  | WFirstCas r => 3 * r + 3
+  | WLoad r wt | WCasWriter r wt _ => if wt then 3 * r + 2 else 3 * r + 3
+  | WCasWaiter r _ _ => 3 * r + 3
+  | WSetWaiter r | WPark r => 3 * r + 2
+  | WClearWaiter r | WHeld r | WUnlock r => 3 * r + 1
+  | WDone => 0
+  end%nat.
+Definition Fr (p : rpc) : nat :=
+  match p with RLoad _ | RCas _ _ => 2 | RInside | RExit => 1 | _ => 0 end%nat.
+(* T: park tokens that exist or may still be produced *)
+Definition Tr (p : rpc) : nat := match p with RDone => 0 | _ => 1 end%nat.
+(* L: position inside the current attempt; a pending CAS counts less when it would succeed
+   ("live", lock_state still equals the loaded value) than when it would fail ("doomed") *)
+Definition Lw (l : Z) (wp : wpc) : nat :=
+  match wp with
+  | WDone => 0
+  | WUnlock _ => 1
+  | WHeld _ => 2
+  | WClearWaiter _ => 3
+  | WPark _ => 4
+  | WCasWriter _ true s => if Z.eqb l s then 4 else 6
+  | WLoad _ true => 5
+  | WSetWaiter _ => 7
+  | WCasWriter _ false s | WCasWaiter _ _ s => if Z.eqb l s then 8 else 10
+  | WLoad _ false => 9
+  | WFirstCas _ => 11
+  | WIdle _ => 12
+  end%nat.
+Definition Lr (l : Z) (p : rpc) : nat :=
+  match p with
+  | RDone => 0
+  | RUnpark _ => 1
+  | RLoadWaiter => 2
+  | RExit => 3
+  | RInside => 4
+  | RCas e s => if Z.eqb l s then 3 * e + 5 else 3 * e + 7
+  | RLoad e => 3 * e + 6
+  end%nat.
+
+Definition Kc (rs : list rpc) : nat := (2 * length rs + 15)%nat.
+
+Definition mu_mk (l : Z) (tok0 : bool) (wp : wpc) (rs : list rpc) : nat :=
+  (Kc rs * (Fw wp + sumf Fr rs) + 3 * (b2n tok0 + sumf Tr rs) + (Lw l wp + sumf (Lr l) rs))%nat.
+
+Definition rpcs_of (c : cfg) : list rpc :=
+  map (fun p => match p with R q => q | W _ => RDone end) (tl (thr c)).
+
+Definition mu (c : cfg) : nat := mu_mk (ls c) (token c 0) (wpc_of c) (rpcs_of c).
+
+Lemma mu_mk_eq l w tk wp rs : mu (mk l w tk wp rs) = mu_mk l (nth 0 tk false) wp rs.
+Proof.
+  unfold mu, rpcs_of, wpc_of. rewrite get_thr_mk_0, token_mk. cbn [ls thr mk tl].
+  rewrite map_map, map_id. reflexivity.
+Qed.
+
+Lemma mu_mk_lt K F F' T T' L L' :
+  ((F' <= F /\ 3 * T' + L' < 3 * T + L) \/ (F' < F /\ 3 * T' + L' < 3 * T + L + K))%nat ->
+  (K * F' + 3 * T' + L' < K * F + 3 * T + L)%nat.
+Proof. intros [[H1 H2]|[H1 H2]]; nia. Qed.
+
+Lemma Lw_swing l l' wp : (Lw l' wp <= Lw l wp + 2)%nat.
+Proof. destruct wp as [| | ? [|] | ? [|] ? | | | | | | |]; simpl; repeat destruct (_ =? _); lia. Qed.
+
+Lemma Lr_swing l l' p : (Lr l' p <= Lr l p + 2)%nat.
+Proof. destruct p; simpl; repeat destruct (_ =? _); lia. Qed.
+
+Lemma sumf_swing l l' rs : (sumf (Lr l') rs <= sumf (Lr l) rs + 2 * length rs)%nat.
+Proof.
+  induction rs as [|p rs IH]; simpl; [lia|]. pose proof (Lr_swing l l' p). lia.
+Qed.
+
+Lemma reader_upd_mu rs i p' l :
+  (i < length rs)%nat ->
+  (sumf Fr (setnth i p' rs) + Fr (nth i rs RDone) = sumf Fr rs + Fr p')%nat /\
+  (sumf Tr (setnth i p' rs) + Tr (nth i rs RDone) = sumf Tr rs + Tr p')%nat /\
+  (sumf (Lr l) (setnth i p' rs) + Lr l (nth i rs RDone) = sumf (Lr l) rs + Lr l p')%nat /\
+  Kc (setnth i p' rs) = Kc rs /\
+  (forall l', sumf (Lr l') (setnth i p' rs) <= sumf (Lr l) (setnth i p' rs) + 2 * length rs)%nat.
+Proof.
+  intros Hi. repeat split; try (apply sumf_setnth; exact Hi).
+  - unfold Kc. rewrite length_setnth by exact Hi. reflexivity.
+  - intros l'. rewrite <- (length_setnth i p' rs Hi). apply sumf_swing.
+Qed.
+
+Ltac fin2 :=
+  rewrite ?set_ls_mk, ?set_waiter_mk, ?set_token_mk, ?upd_mk_0, ?upd_mk_S;
+  rewrite !mu_mk_eq, ?nth0_setnth0; unfold mu_mk.
+
+Lemma step_mk_mu l w tk wp rs t :
+  InvC l w (nth 0 tk false) wp rs ->
+  enabled (mk l w tk wp rs) t = true ->
+  (mu (step (mk l w tk wp rs) t) < mu (mk l w tk wp rs))%nat.
+Proof.
+  intros (Hl & Hw & Hok & Hrs & Hx & Hpk) Hen.
+  pose proof (wbit_01 wp) as Hw01. pose proof (xbit_01 wp) as Hx01.
+  assert (Hn0 : 0 <= Z.of_nat (nin rs)) by lia.
+  pose proof (hww_spec _ _ _ Hn0 Hw01 Hx01) as Hhww.
+  pose proof (owb_spec _ _ _ Hn0 Hw01 Hx01) as Howb.
+  pose proof (wbc_spec _ _ _ Hn0 Hw01 Hx01) as Hwbc.
+  rewrite <- Hl in Hhww, Howb, Hwbc. clear Hw01 Hx01.
+  unfold enabled in Hen.
+  destruct t as [|i].
+  - unfold step. rewrite get_thr_mk_0 in *.
+    destruct wp as [[|r]|r|r [|]|r [|] s|r|r wt s|r|r|r|r|]; try discriminate Hen.
+    all: cbv beta zeta; rewrite ?ls_mk, ?token_mk in *.
+    all: cbn [wok] in Hok; try match goal with H : _ = false /\ _ |- _ => destruct H as [-> Hok] end.
+    all: try rewrite Hen.
+    all: repeat match goal with
+         | |- context[if ?b then _ else _] => let E := fresh "E" in destruct b eqn:E
+         end.
+    all: fin2.
+    all: apply mu_mk_lt.
+    all: cbn [wbit xbit Fw Lw b2n] in *.
+    all: rewrite ?E, ?E0, ?Z.eqb_refl.
+    all: try (left; split; lia).
+    all: try rewrite Hen; cbn [b2n].
+    all: repeat match goal with
+         | |- context[sumf (Lr ?l') ?rs'] =>
+           tryif (first [constr_eq l' l
+                        | match goal with H : (sumf (Lr l') rs' <= _)%nat |- _ => idtac end])
+           then fail else pose proof (sumf_swing l l' rs')
+         end.
+    all: unfold Kc; try lia.
+  - unfold step. rewrite get_thr_mk_S in *.
+    destruct (lt_dec i (length rs)) as [Hi|Hi].
+    2:{ rewrite nth_overflow in Hen by lia. discriminate. }
+    pose proof (fun p' => reader_upd_mu rs i p' l Hi) as Hupd.
+    pose proof (proj2 (proj2 (proj2 (reader_upd rs i RDone Hi))) Hrs) as Ho.
+    destruct (nth i rs RDone) as [[|e]|e s| | | |u|] eqn:Hp; try discriminate Hen.
+    all: cbv beta zeta; rewrite ?ls_mk, ?token_mk, ?reader_waiter_val; change (waiter (mk l w tk wp rs)) with w.
+    all: repeat match goal with
+         | |- context[if ?b then _ else _] => let E := fresh "E" in destruct b eqn:E
+         | |- context[match ?x with Some _ => _ | None => _ end] => destruct x
+         end.
+    all: fin2.
+    all: match goal with |- context[setnth _ ?p' _] =>
+           destruct (Hupd p') as (HF & HT & HL & HK & HS); rewrite HK
+         end.
+    all: apply mu_mk_lt.
+    all: cbn [Fr Tr Lr rok] in *; rewrite ?E, ?Z.eqb_refl in *.
+    all: try (subst u; rewrite nth0_setnth0).
+    all: repeat match goal with
+         | |- context[sumf (Lr ?l') ?rs'] =>
+           tryif (first [constr_eq l' l
+                        | match goal with H : (sumf (Lr l') rs' <= _)%nat |- _ => idtac end])
+           then fail else pose proof (HS l')
+         end.
+    all: repeat match goal with
+         | |- context[Lw ?l' ?wp'] =>
+           tryif (first [constr_eq l' l
+                        | match goal with H : (Lw l' wp' <= _)%nat |- _ => idtac end])
+           then fail else pose proof (Lw_swing l l' wp')
+         end.
+    all: unfold Kc; destruct (nth 0 tk false); cbn [b2n]; try lia.
+Qed.
+
+Lemma mu_step c t : Inv c -> enabled c t = true -> (mu (step c t) < mu c)%nat.
+Proof.
+  intros (wp & rs & Hthr & HI). rewrite (Inv_mk c wp rs Hthr).
+  apply step_mk_mu. exact HI.
+Qed.
+
+(* a thread that is not enabled (done, or parked without a token) does not move *)
+Lemma step_disabled c t : enabled c t = false -> step c t = c.
+Proof.
+  unfold enabled, step. destruct (get_thr c t) as [[]|[]]; try discriminate; try reflexivity.
+  intros ->. reflexivity.
+Qed.
+
+(* Goal 5: every step of an enabled (hence not done) thread strictly decreases mu *)
+Theorem step_decreases rounds readers sched t :
+  let c := run (init rounds readers) sched in
+  enabled c t = true -> (mu (step c t) < mu c)%nat.
+Proof. intros c. apply mu_step. apply Inv_run. Qed.
+
+(* number of positions of a schedule at which the scheduled thread is enabled *)
+Fixpoint busy (c : cfg) (sched : list nat) : nat :=
+  match sched with
+  | [] => 0
+  | t :: sched' => (b2n (enabled c t) + busy (step c t) sched')%nat
+  end.
+
+Lemma busy_bound c sched : Inv c -> (busy c sched + mu (run c sched) <= mu c)%nat.
+Proof.
+  revert c. induction sched as [|t sched IH]; intros c Hc; simpl; [lia|].
+  specialize (IH (step c t) (Inv_step c t Hc)).
+  destruct (enabled c t) eqn:Hen; simpl.
+  - pose proof (mu_step c t Hc Hen). lia.
+  - rewrite (step_disabled c t Hen) in *. lia.
+Qed.
+
+Definition run_bound (rounds : nat) (readers : list nat) : nat :=
+  ((2 * length readers + 15) * (3 * rounds + 2 * length readers)
+   + 3 * length readers + 12 + sumf (fun e => 3 * e + 6) readers)%nat.
+
+Lemma sumf_init_F readers : sumf Fr (map RLoad readers) = (2 * length readers)%nat.
+Proof. induction readers as [|e es IH]; simpl in *; lia. Qed.
+Lemma sumf_init_T readers : sumf Tr (map RLoad readers) = length readers.
+Proof. induction readers as [|e es IH]; simpl in *; lia. Qed.
+Lemma sumf_init_L readers :
+  sumf (Lr 0) (map RLoad readers) = sumf (fun e => 3 * e + 6)%nat readers.
+Proof. induction readers as [|e es IH]; simpl in *; lia. Qed.
+
+Lemma mu_init rounds readers : mu (init rounds readers) = run_bound rounds readers.
+Proof.
+  assert (Hthr : thr (init rounds readers) = W (WIdle rounds) :: map R (map RLoad readers)).
+  { unfold init. cbn [thr]. rewrite map_map. reflexivity. }
+  rewrite (Inv_mk _ _ _ Hthr), mu_mk_eq. unfold mu_mk, run_bound, Kc.
+  cbn [ls tokens init Fw Lw]. rewrite map_length.
+  pose proof (sumf_init_F readers) as HF. pose proof (sumf_init_T readers) as HT.
+  pose proof (sumf_init_L readers) as HL.
+  rewrite HF, HT, HL. simpl (nth 0 _ _). cbn [b2n]. lia.
+Qed.
+
+(* bounded_runs: in any schedule at most run_bound positions schedule an enabled thread; all
+   other positions are no-ops (step_disabled) *)
+Theorem bounded_runs rounds readers sched :
+  (busy (init rounds readers) sched <= run_bound rounds readers)%nat.
+Proof.
+  pose proof (busy_bound (init rounds readers) sched (Inv_init rounds readers)) as H.
+  rewrite mu_init in H. lia.
+Qed.
+
+(* ------------------------------------------------------------------------------------ *)
+(* 6. Non-vacuity: concrete schedules                                                    *)
+(* ------------------------------------------------------------------------------------ *)
+
+(* all configurations a schedule passes through, the initial one first *)
+Fixpoint trace (c : cfg) (sched : list nat) : list cfg :=
+  match sched with
+  | [] => [c]
+  | t :: sched' => c :: trace (step c t) sched'
+  end.
+
+Definition writer_parked_no_token (c : cfg) : bool :=
+  match get_thr c 0 with W (WPark _) => negb (token c 0) | _ => false end.
+Definition writer_at_park (c : cfg) : bool :=
+  match get_thr c 0 with W (WPark _) => true | _ => false end.
+
+(* (a) one writer round, two readers of one element each.  Reader 1 enters the tree; the writer
+   fails its first CAS, sets WAITER, publishes itself, re-loads, and parks with no token: at that
+   point it is blocked (not enabled) and the extra "0" in the schedule is a no-op.  Reader 1 then
+   leaves, fetches READER|WAITER, loads waiter = Some 0 and unparks; the writer wakes, takes the
+   lock, unlocks; reader 2 runs afterwards.  Everything completes. *)
+Definition sched_park_prefix : list nat := [1; 1; 0; 0; 0; 0; 0; 0; 0]%nat.
+Definition sched_park_rest : list nat := [1; 1; 1; 1; 0; 0; 0; 0; 0; 0; 0; 2; 2; 2; 2]%nat.
+
+Example writer_parks_and_is_woken :
+  let c1 := run (init 1 [1; 1]%nat) sched_park_prefix in
+  let c2 := run c1 [1; 1; 1]%nat in
+  let c3 := run c1 sched_park_rest in
+  get_thr c1 0 = W (WPark 0) /\ token c1 0 = false /\ enabled c1 0 = false /\
+  ls c1 = Z.lor READER WAITER /\ waiter c1 = Some 0%nat /\
+  get_thr c2 1 = R (RUnpark 0) /\
+  existsb writer_parked_no_token (trace (init 1 [1; 1]%nat) (sched_park_prefix ++ sched_park_rest)) = true /\
+  all_done c3 = true /\ ls c3 = 0 /\ waiter c3 = None.
+Proof. vm_compute. repeat split; reflexivity. Qed.
+
+(* (b) the window of L3: reader 1 leaves between the writer's WAITER CAS and its waiter swap.  It
+   fetches READER|WAITER, goes to RLoadWaiter, finds waiter = None and sends nothing.  The writer's
+   next load sees lock_state = WAITER exactly, takes the only_waiter_bit branch and never parks. *)
+Definition sched_window_prefix : list nat := [1; 1; 0; 0; 0; 0; 1; 1]%nat.
+Definition sched_window_rest : list nat := [1; 0; 0; 0; 0; 0; 0; 0; 2; 2; 2; 2]%nat.
+
+Example reader_leaves_in_the_window :
+  let c1 := run (init 1 [1; 1]%nat) sched_window_prefix in
+  let c2 := step c1 1 in
+  let c3 := run c1 sched_window_rest in
+  get_thr c1 0 = W (WSetWaiter 0) /\ get_thr c1 1 = R RLoadWaiter /\
+  waiter c1 = None /\ ls c1 = WAITER /\
+  get_thr c2 1 = R RDone /\ token c2 0 = false /\
+  existsb writer_at_park (trace (init 1 [1; 1]%nat) (sched_window_prefix ++ sched_window_rest)) = false /\
+  all_done c3 = true /\ ls c3 = 0 /\ waiter c3 = None.
+Proof. vm_compute. repeat split; reflexivity. Qed.
+
+(* (c) a stale wake-up (L4): the reader that fetched READER|WAITER in round 1 is delayed until the
+   writer waits again in round 2 (for reader 2), and only then loads waiter and unparks.  The
+   writer wakes spuriously, re-reads lock_state, parks again and is woken by reader 2. *)
+Example stale_unpark_is_harmless :
+  let sched := [1; 1; 0; 0; 0; 0; 1; 1;          (* r1 in; W sets WAITER; r1 out -> RLoadWaiter *)
+                0; 0; 0; 0; 0; 0; 0;              (* W: swap, load, CAS, clear, held, unlock, idle *)
+                2; 2; 0; 0; 0; 0; 0; 0; 0;        (* r2 in; W round 2: ... parks, no token *)
+                1; 1;                             (* r1: loads waiter = Some 0, stale unpark *)
+                0; 0; 0;                          (* W: wakes, re-loads, parks again *)
+                2; 2; 2; 2;                       (* r2 out, unparks *)
+                0; 0; 0; 0; 0; 0; 0; 0]%nat in
+  let c := run (init 2 [1; 1]%nat) sched in
+  let c26 := run (init 2 [1; 1]%nat) (firstn 26 sched) in
+  (* the stale token has arrived although reader 2 is still inside the tree *)
+  get_thr c26 0 = W (WPark 0) /\ token c26 0 = true /\ get_thr c26 2 = R RInside /\
+  get_thr (run c26 [0; 0]%nat) 0 = W (WPark 0) /\ token (run c26 [0; 0]%nat) 0 = false /\
+  (busy (init 2 [1; 1]%nat) sched < length sched)%nat /\ all_done c = true /\ ls c = 0.
+Proof. vm_compute. repeat split; try reflexivity. lia. Qed.
+
+(* ------------------------------------------------------------------------------------ *)
+Print Assumptions Inv_run.
+Print Assumptions ls_shape.
+Print Assumptions waiter_shape.
+Print Assumptions mutual_exclusion.
+Print Assumptions mutual_exclusion_conv.
+Print Assumptions reader_inside_excludes_writer.
+Print Assumptions no_lost_wakeup.
+Print Assumptions deadlock_free.
+Print Assumptions unreachable_spin.
+Print Assumptions waiting_keeps_waiter_bit.
+Print Assumptions waiting_writer_alone_does_not_park.
+Print Assumptions parked_writer_is_published.
+Print Assumptions last_reader_fetches_reader_waiter.
+Print Assumptions delivering_reader_unparks_writer.
+Print Assumptions step_decreases.
+Print Assumptions bounded_runs.
+Print Assumptions writer_parks_and_is_woken.
+Print Assumptions reader_leaves_in_the_window.
+Print Assumptions stale_unpark_is_harmless.
